@@ -517,8 +517,17 @@ func GenSched(r *sim.Rand, tier string) sim.Script {
 		}
 		s.Tasks = append(s.Tasks, ops)
 	}
-	s.Strategy = []string{"rw", "rw", "pct", "rub"}[r.Intn(4)]
+	s.Strategy = []string{"rw", "rw", "pct", "rub", "stall"}[r.Intn(5)]
 	s.SchedSeed = r.U64()
+	if r.Chance(1, 15) {
+		// lapping: one task writes a whole ring's worth of entries in one go while the others are somewhere inside
+		// a write of their own (run-until-blocked / priority schedules let it run through)
+		t := r.Intn(len(s.Tasks))
+		at := r.Intn(len(s.Tasks[t]) + 1)
+		lap := Op{K: "burst", L: 0, N: 1024 + r.Intn(8)}
+		s.Tasks[t] = append(append(append([]Op{}, s.Tasks[t][:at]...), lap), s.Tasks[t][at:]...)
+		s.Strategy = []string{"stall", "stall", "rub", "pct"}[r.Intn(4)]
+	}
 	return s
 }
 
